@@ -14,7 +14,7 @@ Section D.
     NoDup (seen s) /\ map r_id (spas s) = seen s /\
     (forall r, In r (spas s) -> In r arr) /\ (forall r, In r (queue s) -> In r arr) /\
     (forall want, f_id c = Some want -> forall r, In r (spas s) -> r_id r = want) /\
-    (found s = true -> spas s <> []).
+    (found s = true \/ pending s = true -> spas s <> []).
 
   Lemma mem_In x l : mem x l = true <-> In x l.
   Proof. unfold mem. rewrite existsb_exists. split; [intros [y [Hy E]]; apply Z.eqb_eq in E; now subst|intros H; exists x; split; [auto|apply Z.eqb_refl]]. Qed.
@@ -54,19 +54,22 @@ Section D.
   Lemma step_inv arr s l : Inv arr s -> Inv (arr ++ arrived [l]) (step c s l).
   Proof.
     intros I. assert (I' : Inv (arr ++ arrived [l]) s) by (eapply Inv_mono; [|exact I]; intros r Hr; apply in_or_app; left; exact Hr).
-    unfold step. destruct (finished s) eqn:Fin; [exact I'|]. destruct l as [r| |age].
-    - destruct I' as [I1 [I2 [I3 [I4 [I5 I6]]]]]. unfold Inv; cbn [queue seen spas found].
+    unfold step. destruct (finished s) eqn:Fin; [exact I'|]. destruct l as [r| | |age].
+    - destruct I' as [I1 [I2 [I3 [I4 [I5 I6]]]]]. unfold Inv; cbn [queue seen spas found pending].
       refine (conj I1 (conj I2 (conj I3 (conj _ (conj I5 I6))))).
       intros x Hx. apply in_app_or in Hx. destruct Hx as [Hx|[Hx|[]]]; [auto|subst]. apply in_or_app. right. cbn. left. reflexivity.
     - destruct (queue s) as [|r q] eqn:Q; [exact I'|]. cbn [arrived flat_map] in *. rewrite app_nil_r in *.
       destruct I as [I1 [I2 [I3 [I4 [I5 I6]]]]]. apply on_discovered_inv.
-      + unfold Inv; cbn [queue seen spas found]. refine (conj I1 (conj I2 (conj I3 (conj _ (conj I5 I6))))).
+      + unfold Inv; cbn [queue seen spas found pending]. refine (conj I1 (conj I2 (conj I3 (conj _ (conj I5 I6))))).
         intros x Hx. apply I4. rewrite Q. right. exact Hx.
       + apply I4. rewrite Q. left. reflexivity.
     - cbn [arrived flat_map] in *. rewrite app_nil_r in *. destruct I as [I1 [I2 [I3 [I4 [I5 I6]]]]].
+      unfold Inv; cbn [queue seen spas found pending finished]. refine (conj I1 (conj I2 (conj I3 (conj I4 (conj I5 _))))).
+      intros [H|H]; [|discriminate]. apply I6. apply orb_prop in H. tauto.
+    - cbn [arrived flat_map] in *. rewrite app_nil_r in *. destruct I as [I1 [I2 [I3 [I4 [I5 I6]]]]].
       destruct (negb (age <? t_timeout c)); [exact (conj I1 (conj I2 (conj I3 (conj I4 (conj I5 I6)))))|].
       destruct ((t_initial c <? age) && negb (Nat.eqb (List.length (spas s)) 0)); [exact (conj I1 (conj I2 (conj I3 (conj I4 (conj I5 I6)))))|].
-      destruct (found s) eqn:Fd; unfold Inv; cbn [queue seen spas found finished]; rewrite ?Fd;
+      destruct (found s) eqn:Fd; unfold Inv; cbn [queue seen spas found pending finished]; rewrite ?Fd;
         exact (conj I1 (conj I2 (conj I3 (conj I4 (conj I5 I6))))).
   Qed.
 
@@ -80,7 +83,8 @@ Section D.
   Qed.
 
   Lemma init_inv : Inv [] init.
-  Proof. unfold Inv, init; cbn. repeat split; auto; try constructor; intros; try contradiction; try discriminate. Qed.
+  Proof. unfold Inv, init; cbn. repeat split; auto; try constructor; intros; try contradiction; try discriminate.
+    match goal with H : _ \/ _ |- _ => destruct H; discriminate end. Qed.
 
   (* each listed spa once, its fields those of a reply that arrived, only the requested identifier when one is given *)
   Theorem discovery_safe ls : let s := run c init ls in
@@ -108,18 +112,29 @@ Section D.
   Proof. intros Hf. unfold step. rewrite Hf. destruct (negb (age <? t_timeout c)); [reflexivity|].
     destruct ((t_initial c <? age) && negb (Nat.eqb (List.length (spas s)) 0)); [reflexivity|]. destruct (found s); [reflexivity|exact Hf]. Qed.
 
-  (* a specifically requested spa (identifier or address given) that has been listed makes the very next poll return *)
+  (* a specifically requested spa (identifier or address given) that has been listed makes the first poll after the client's handler
+     for it has returned leave the loop *)
   Theorem found_when_requested s r q : finished s = None -> queue s = r :: q -> ~ In (r_id r) (seen s) ->
     (f_addr c = true \/ f_id c = Some (r_id r)) -> (forall want, f_id c = Some want -> want = r_id r) ->
-    forall age, finished (step c (step c s Consume) (MainPoll age)) = Some age.
+    forall age, finished (step c (step c (step c s Consume) HandlerDone) (MainPoll age)) = Some age.
   Proof.
-    intros Hf Hq Hn Hreq Hw age. assert (Ff : found (step c s Consume) = true /\ finished (step c s Consume) = None).
+    intros Hf Hq Hn Hreq Hw age. assert (Ff : pending (step c s Consume) = true /\ finished (step c s Consume) = None).
     { unfold step. rewrite Hf, Hq. unfold on_discovered. cbn [seen].
       replace (mem (r_id r) (seen s)) with false by (symmetry; apply not_true_is_false; intros C; apply mem_In in C; contradiction).
       destruct (f_id c) as [want|] eqn:F.
       - rewrite (Hw want eq_refl), Z.eqb_refl. cbn. auto.
       - cbn. destruct Hreq as [H|H]; [rewrite H, orb_true_r; auto|discriminate]. }
-    destruct Ff as [F1 F2]. rewrite (main_poll_exits _ age F2), F1. now rewrite orb_true_r.
+    destruct Ff as [F1 F2].
+    assert (G : found (step c (step c s Consume) HandlerDone) = true /\ finished (step c (step c s Consume) HandlerDone) = None).
+    { unfold step at 1 3. rewrite F2. cbn [found finished]. rewrite F1, orb_true_r. auto. }
+    destruct G as [G1 G2]. rewrite (main_poll_exits _ age G2), G1. now rewrite orb_true_r.
+  Qed.
+
+  (* nothing but that handler's return sets the flag: without it the poll does not leave early *)
+  Theorem not_found_before_handler_returns s : finished s = None -> found s = false -> found (step c s Consume) = false.
+  Proof.
+    intros Hf Hn. unfold step. rewrite Hf. destruct (queue s) as [|r q]; [exact Hn|]. unfold on_discovered. cbn [seen found].
+    destruct (mem (r_id r) (seen s)); [exact Hn|]. destruct (f_id c) as [want|]; [destruct (negb (want =? r_id r)); exact Hn|exact Hn].
   Qed.
 
   (* after the return nothing has any effect: no late listing, no double close *)
